@@ -22,7 +22,7 @@ BOUND = {"quick": "all 19683 windows; all 576 impulses x 6 polylines x layers 0.
 ASSUMPTIONS = ["PIL truncates fractional pixel coordinates toward zero; all placements keep coordinates positive",
                "the window of the LAST vertex of a polyline is not part of the integrated band (the walk stops before the end point); images are dark there so the convention does not matter in the configuration sweep; the impulse sweep reports it",
                "'equal for all interfaces of a uniformly bright image' is checked without integration (with integration the band size per unit length depends on the direction of the polyline)"]
-REQUIRED_TAGS = {"all": ["windows", "impulses", "integrate", "average", "float_image", "uint8_image", "uniform_image", "rescaled", "repeated_interface", "diagonal", "curved", "zero_intensity_interface", "defaults_omitted"]}
+REQUIRED_TAGS = {"all": ["windows", "impulses", "integrate", "average", "float_image", "uint8_image", "uniform_image", "rescaled", "repeated_interface", "diagonal", "curved", "zero_intensity_interface", "defaults_omitted", "requantified_with_other_options"]}
 
 POLYLINES = {
     "horizontal": [(4, 6), (7, 6), (10, 6), (13, 6)],
@@ -244,6 +244,11 @@ class Configs(ProductSystem):
             tags.append("rescaled")
         if cfg["list"] == "repeated":
             tags.append("repeated_interface")
+        if cfg["layers"] % 2 == 0 and cfg["list"] != "repeated":
+            # an earlier quantification of the SAME interface objects with other options (it stores reference values on them):
+            # the judged call below must report and store what a first call would
+            fsutil.call(fm.get_intensities, edges, img, not cfg["integrate"], None if cfg["normalize"] else "average", cfg["layers"] + 1, rescale=rescale, offset=offset)
+            tags.append("requantified_with_other_options")
         res, ex = fsutil.call(fm.get_intensities, edges, img, cfg["integrate"], cfg["normalize"], cfg["layers"], rescale=rescale, offset=offset)
         viol, known = [], []
         # the same call with every argument that equals its default (integrate=False, normalize='average', layers=1,
